@@ -25,6 +25,7 @@ import (
 	utilruntime "k8s.io/apimachinery/pkg/util/runtime"
 
 	"metacontroller/pkg/controller/common"
+	dynamicinformer "metacontroller/pkg/dynamic/informer"
 	vh "metacontroller/pkg/internal/verifh"
 )
 
@@ -213,12 +214,14 @@ type c15UpdRec struct {
 }
 
 type c15Rec struct {
-	Updates   []c15UpdRec
-	Sc        *c15Scenario
-	Builds    [][]c15StepRec
-	Wakes     []c15WakeRec
-	Cold      []c15ColdRec
-	ColdCalls int // customize calls caused by the cold probes (for the cold parent); -1 = no cold probe ran
+	// C17c: per step, "" or which object held by a shared informer (related resources, parent) the step changed
+	CacheMutated []string
+	Updates      []c15UpdRec
+	Sc           *c15Scenario
+	Builds       [][]c15StepRec
+	Wakes        []c15WakeRec
+	Cold         []c15ColdRec
+	ColdCalls    int // customize calls caused by the cold probes (for the cold parent); -1 = no cold probe ran
 }
 
 // relatedCacheView: what a related informer created during this build will LIST (the frozen views).
@@ -285,10 +288,15 @@ func c15Run(sc *c15Scenario) (*c15Rec, error) {
 		if err != nil {
 			return nil, err
 		}
+		var oracle *c15CacheOracle
+		if c15WithCacheOracle {
+			oracle = c15NewCacheOracle(b, pns, pname)
+		}
 		var recs []c15StepRec
 		var lastRelated map[string]interface{}
 		lastDone := false
 		for _, stp := range bs.Steps {
+			oracle.before()
 			switch stp.Kind {
 			case "sync":
 				rec := w.runSync(&sc.Ctl, b, key)
@@ -368,6 +376,9 @@ func c15Run(sc *c15Scenario) (*c15Rec, error) {
 				}
 				recs = append(recs, sr)
 			}
+			if oracle != nil {
+				out.CacheMutated = append(out.CacheMutated, oracle.after())
+			}
 		}
 		// does a change of an object in the related map wake the parent? (the real informer handlers)
 		last := bi == len(sc.Builds)-1
@@ -415,6 +426,7 @@ func c15Run(sc *c15Scenario) (*c15Rec, error) {
 			// let the related informers deliver their initial add events to the real handlers
 			time.Sleep(20 * time.Millisecond)
 		}
+		oracle.close()
 		b.close()
 		out.Builds = append(out.Builds, recs)
 	}
@@ -662,6 +674,125 @@ func c15WakeProbe(w *cworld, b *builtPC, key string, related map[string]interfac
 		out = append(out, c15WakeRec{Obj: objKey(o), Woken: woken})
 	}
 	return out
+}
+
+// ---- C17c: nothing a sync does may change an object held by the shared informers ----
+
+// switched on by TestVerif_C17c
+var c15WithCacheOracle bool
+
+type c15Snap struct {
+	what string
+	ptr  *unstructured.Unstructured
+	copy map[string]interface{}
+}
+
+type c15CacheOracle struct {
+	b      *builtPC
+	pns    string
+	pname  string
+	subs   []*dynamicinformer.ResourceInformer
+	kinds  []string
+	snaps  []c15Snap
+	failed string
+}
+
+// c15Factory: the shared informer factory of this controller build (the customize manager keeps it)
+func c15Factory(b *builtPC) (f *dynamicinformer.SharedInformerFactory) {
+	defer func() {
+		if r := recover(); r != nil {
+			f = nil
+		}
+	}()
+	fv := reflect.ValueOf(b.pc.customize).Elem().FieldByName("dynInformers")
+	fv = reflect.NewAt(fv.Type(), unsafe.Pointer(fv.UnsafeAddr())).Elem()
+	f, _ = fv.Interface().(*dynamicinformer.SharedInformerFactory)
+	return f
+}
+
+// the oracle subscribes to the related resources itself: the manager later gets the same shared informers, so the
+// objects it lists are the very objects snapshotted here
+func c15NewCacheOracle(b *builtPC, pns, pname string) *c15CacheOracle {
+	o := &c15CacheOracle{b: b, pns: pns, pname: pname}
+	f := c15Factory(b)
+	if f == nil {
+		o.failed = "oracle: no access to the shared informer factory"
+		return o
+	}
+	for _, k := range c15Related {
+		ri, err := f.Resource(k.APIVersion, k.Resource)
+		if err != nil {
+			continue
+		}
+		deadline := time.Now().Add(10 * time.Second)
+		for !ri.Informer().HasSynced() && time.Now().Before(deadline) {
+			time.Sleep(200 * time.Microsecond)
+		}
+		o.subs = append(o.subs, ri)
+		o.kinds = append(o.kinds, k.Kind)
+	}
+	return o
+}
+
+// before: pointer and deep copy of every object the shared informers hold
+func (o *c15CacheOracle) before() {
+	if o == nil {
+		return
+	}
+	o.snaps = o.snaps[:0]
+	for i, ri := range o.subs {
+		for _, x := range ri.Informer().GetIndexer().List() {
+			if u, ok := x.(*unstructured.Unstructured); ok {
+				o.snaps = append(o.snaps, c15Snap{what: "related " + o.kinds[i], ptr: u, copy: runtime.DeepCopyJSON(u.Object)})
+			}
+		}
+	}
+	if p, err := common.GetObject(o.b.pc.parentInformer, o.pns, o.pname); err == nil {
+		o.snaps = append(o.snaps, c15Snap{what: "parent", ptr: p, copy: runtime.DeepCopyJSON(p.Object)})
+	}
+}
+
+// after: the same pointers must still hold the same content (identity by pointer: an object the informer has
+// replaced meanwhile is simply no longer the cached one)
+func (o *c15CacheOracle) after() string {
+	if o == nil {
+		return ""
+	}
+	if o.failed != "" {
+		return o.failed
+	}
+	for _, sn := range o.snaps {
+		if !reflect.DeepEqual(sn.ptr.Object, sn.copy) {
+			return sn.what
+		}
+	}
+	return ""
+}
+
+func (o *c15CacheOracle) close() {
+	if o == nil {
+		return
+	}
+	for _, ri := range o.subs {
+		ri.Close()
+	}
+}
+
+// objects as a real API server hands them out: managedFields, kubectl's annotation, a status block
+func c15Decorate(o J, variant int) {
+	md := o["metadata"].(J)
+	if variant%4 != 3 {
+		md["managedFields"] = A{J{"manager": "kubectl-client-side-apply", "operation": "Update", "apiVersion": o["apiVersion"],
+			"time": "2020-01-01T00:00:00Z", "fieldsType": "FieldsV1", "fieldsV1": J{"f:metadata": J{"f:labels": J{}}, "f:spec": J{}}}}
+	}
+	if variant%3 != 2 {
+		md["annotations"] = J{"kubectl.kubernetes.io/last-applied-configuration": fmt.Sprintf(`{"apiVersion":"%v","kind":"%v"}`, o["apiVersion"], o["kind"]),
+			"note": "seeded"}
+	}
+	if variant%2 == 0 {
+		o["status"] = J{"phase": "Running", "observedGeneration": int64(1), "conditions": A{J{"type": "Ready", "status": "True"}}}
+	}
+	o["spec"] = J{"size": int64(variant)}
 }
 
 // ---- emission ----
@@ -1512,6 +1643,92 @@ func TestVerif_C15(t *testing.T) {
 			}
 		}
 		if nontrivial {
+			w.NonTrivial(vh.Sig(sc.Family, strings.Join(sc.Features, ","), fmt.Sprint(outcome)))
+		}
+	}
+	if err := w.Close(nil); err != nil {
+		t.Fatal(err)
+	}
+}
+
+// TestVerif_C17c (a leg of property C17): the C15 scenarios with a cache oracle over the RELATED informers (and the
+// parent informer): pointer + deep copy of every cached object before each step, compared after it; related objects
+// are seeded the way a real server returns them (managedFields, kubectl annotation, status).
+func TestVerif_C17c(t *testing.T) {
+	env := vh.GetEnv()
+	if env.OutDir == "" {
+		t.Skip("VERIF_OUT not set")
+	}
+	c15WithCacheOracle = true
+	defer func() { c15WithCacheOracle = false }()
+	prevCrash, prevHandlers := utilruntime.ReallyCrash, utilruntime.PanicHandlers
+	utilruntime.ReallyCrash = false
+	utilruntime.PanicHandlers = []func(context.Context, interface{}){func(context.Context, interface{}) {
+		atomic.AddInt32(&c15HandlerPanics, 1)
+	}}
+	defer func() { utilruntime.ReallyCrash = prevCrash; utilruntime.PanicHandlers = prevHandlers }()
+	header := "From MC Require Import Check.C15_check.\nOpen Scope string_scope.\n"
+	w, err := vh.NewCaseWriter(env.OutDir, "C17c", header, 25)
+	if err != nil {
+		t.Fatal(err)
+	}
+	var scs []*c15Scenario
+	if env.Replay != "" {
+		data, err := os.ReadFile(env.Replay)
+		if err != nil {
+			t.Fatal(err)
+		}
+		var rf struct {
+			Case struct {
+				Scenario *c15Scenario `json:"scenario"`
+			} `json:"case"`
+		}
+		if err := k8sjson.Unmarshal(data, &rf); err != nil || rf.Case.Scenario == nil {
+			t.Fatalf("cannot read replay: %v", err)
+		}
+		scs = append(scs, rf.Case.Scenario)
+	} else {
+		n := env.N
+		if n == 0 {
+			n = 100
+		}
+		scs = c15Generate(env.Seed^0xc17c, n, os.Getenv("VERIF_ADV") == "1")
+		for _, sc := range scs {
+			for i, o := range sc.Objects {
+				c15Decorate(o, i)
+			}
+		}
+	}
+	for i, sc := range scs {
+		c15TagNullRule(sc)
+		rec, err := c15Run(sc)
+		if err != nil {
+			t.Fatalf("scenario %d (%s): %v", i, sc.Family, err)
+		}
+		id := fmt.Sprintf("s%d", i)
+		outcome := c15Outcome(rec)
+		replay := J{"scenario": sc, "features": sc.Features, "outcome": outcome, "cacheMutated": rec.CacheMutated}
+		def := fmt.Sprintf("mkC17c (%s) %s", c15CoqCase(rec), vh.CoqStringList(rec.CacheMutated))
+		if err := w.Add(id, def, "C17c_check", replay); err != nil {
+			t.Fatal(err)
+		}
+		w.Count("family-" + sc.Family)
+		sent := false
+		for _, b := range outcome {
+			for _, l := range b {
+				w.Count("step-" + strings.SplitN(l, " ", 2)[0])
+				if !strings.Contains(l, "related=0") {
+					sent = true
+				}
+			}
+		}
+		for _, m := range rec.CacheMutated {
+			if m != "" {
+				w.Count("cache-mutated-" + m)
+			}
+		}
+		if sent {
+			w.Count("related-objects-handed-out")
 			w.NonTrivial(vh.Sig(sc.Family, strings.Join(sc.Features, ","), fmt.Sprint(outcome)))
 		}
 	}
